@@ -1,18 +1,53 @@
 (** C16 — introspection calls report exactly what is in the file.
-    (model: PQ.Introspect; the file-level theorem is stated in PQ.IntrospectProofs as it lands) *)
+    Statements only; proofs in PQ.IntrospectProofs (and PQ.MetaProofs).
+    [read_metadata], [page_headers], [page_headers_at_offset] are the models of
+    parquet.go's ReadMetaData, PageHeaders, PageHeadersAtOffset over the
+    explicit source.  On every file of the writer model: ReadMetaData returns
+    the footer that was written; PageHeadersAtOffset on a chunk's offset returns
+    exactly one header per data page of that chunk, in order, and stops at the
+    chunk's end; PageHeaders returns all of them row-group-major. *)
 From Coq Require Import List NArith ZArith.
-From PQ Require Import Bytes MetaTypes Thrift Meta MetaProofs.
+From PQ Require Import Bytes Schema Rle MetaTypes Thrift Meta MetaProofs Writer Io Introspect ReaderProofs2 IntrospectProofs.
 Import ListNotations.
 
-(** The footer an independent parser decodes is the footer that was written:
-    thrift decoding inverts encoding for every well-formed FileMetaData and
-    PageHeader, whatever follows them. *)
+Theorem C16_introspect_ok : forall compress cfg bs sched fuel,
+  cfg_ok cfg -> Forall (batch_ok compress cfg) bs -> footer_ok compress cfg bs ->
+  Forall (fun b => (length b <= fuel)%nat) bs ->
+  exists s1 s2,
+    read_metadata (mk_src (file_of_batches compress cfg bs) sched None) = Ok (written_footer compress cfg bs, s1) /\
+    page_headers fuel (written_footer compress cfg bs) s1 = Ok (all_headers compress cfg bs, s2).
+Proof. exact introspect_ok. Qed.
+Print Assumptions C16_introspect_ok.
+
+(** what those two names stand for *)
+Theorem C16_written_footer_is : forall compress cfg bs,
+  written_footer compress cfg bs = footer_meta cfg (map (fun b => snd (write_batch compress cfg b)) bs).
+Proof. reflexivity. Qed.
+
+Theorem C16_all_headers_is : forall compress cfg bs,
+  all_headers compress cfg bs =
+  flat_map (fun b => flat_map (fun '(j, c) => map pg_header (column_pages compress cfg j c b))
+                              (index_from 0 (columns (cfg_fields cfg)))) bs.
+Proof. reflexivity. Qed.
+
+(** listing from a given offset: the chunk's own headers, and the position ends at the chunk's end *)
+Theorem C16_page_headers_at_offset : forall compress cfg bs i j b c rg cc cm fuel s0,
+  cfg_ok cfg -> batch_ok compress cfg b ->
+  nth_error bs i = Some b -> nth_error (columns (cfg_fields cfg)) j = Some c ->
+  nth_error (fm_row_groups (footer_meta cfg (map (fun b0 => snd (write_batch compress cfg b0)) bs))) i = Some rg ->
+  nth_error (rg_columns rg) j = Some cc -> cc_meta cc = Some cm ->
+  (length (column_pages compress cfg j c b) <= fuel)%nat ->
+  s_fail s0 = None -> s_file s0 = file_of_batches compress cfg bs ->
+  exists s',
+    page_headers_at_offset fuel (cm_data_page_offset cm) (cm_num_values cm) s0 =
+      Ok (map pg_header (column_pages compress cfg j c b), s') /\
+    s_fail s' = None /\ s_file s' = file_of_batches compress cfg bs /\
+    Z.of_N (s_pos s') = (cm_data_page_offset cm + cm_total_compressed cm)%Z.
+Proof. exact page_headers_at_offset_ok. Qed.
+Print Assumptions C16_page_headers_at_offset.
+
+(** the footer an independent parser decodes is the footer that was written *)
 Theorem C16_footer_roundtrip : forall fm rest,
   file_meta_ok fm = true -> dec_file_meta (enc_file_meta fm ++ rest) = Some (fm, rest).
 Proof. exact dec_enc_file_meta. Qed.
 Print Assumptions C16_footer_roundtrip.
-
-Theorem C16_page_header_roundtrip : forall ph rest,
-  page_header_ok ph = true -> dec_page_header (enc_page_header ph ++ rest) = Some (ph, rest).
-Proof. exact dec_enc_page_header. Qed.
-Print Assumptions C16_page_header_roundtrip.
